@@ -90,8 +90,7 @@ def _worker(args):
     key, base, run_python = args
     tmp = Path(base) / f"w{os.getpid()}"
     tmp.mkdir(parents=True, exist_ok=True)
-    n_extra = len(key[1]) if key[0] == "python" else 0
-    return key, check_definition(key, tmp, run_python and n_extra <= 2)
+    return key, check_definition(key, tmp, run_python)
 
 
 def _run(ctx):
@@ -112,7 +111,7 @@ def _run(ctx):
     dom = ctx.domain(
         "generated-definitions",
         bound=f"shell: mandatory int arg at position None/1/-1 + every subset of <= {k_sh} of 14 further input templates x 5 output sets x xor variants x executable str/list ({n_sh} definitions" + ("" if ctx.thorough else "; quick: position/output-set variation only for subsets of <= 1 template") + "); "
-        f"python: mandatory int + every subset of <= {k_py} of 12 input templates x 3 output sets x xor variants ({len(keys) - n_sh} definitions); two input value sets each (python definitions are really run: on both sets up to 2 templates in thorough, otherwise on the first set)",
+        f"python: mandatory int + every subset of <= {k_py} of 12 input templates x 3 output sets x xor variants ({len(keys) - n_sh} definitions); two input value sets each (python definitions are really run: on both sets in thorough, on the first set in quick)",
         rule="one unstructure+structure per definition, compared attribute by attribute, then cmdline / real run on equal inputs; non-trivial = at least one optional template or output beyond the mandatory field",
         exhaustive=True,
     )
